@@ -117,7 +117,7 @@ Lemma fq_seek_unfold ffuel r line byte_ :
                                            QPositioned) 0) 0 in
         let '(r1, fr) := fq_fill ffuel r in
         match fr with
-        | FillErr k => (qset_st r1 QFinished, QOErr (FqIo k))
+        | FillErr k => (qset_st (qset_buf r1 []) QFinished, QOErr (FqIo k))
         | FillFuel => (r1, QOFuel)
         | FillOk _ => (r1, QOOk)
         end
